@@ -1,11 +1,11 @@
 package govc
 
 import (
-	"strings"
 	"fmt"
 	"go/token"
 	"go/types"
 	"sort"
+	"strings"
 
 	"golang.org/x/tools/go/ssa"
 )
@@ -171,7 +171,9 @@ func (u *Unit) candidates(fn *ssa.Function, head *ssa.BasicBlock, ord int, mods 
 	for c := range mods.cells {
 		cells = append(cells, c)
 	}
-	sort.Slice(cells, func(i, j int) bool { return cells[i].Pos() < cells[j].Pos() || (cells[i].Pos() == cells[j].Pos() && cells[i].Name() < cells[j].Name()) })
+	sort.Slice(cells, func(i, j int) bool {
+		return cells[i].Pos() < cells[j].Pos() || (cells[i].Pos() == cells[j].Pos() && cells[i].Name() < cells[j].Name())
+	})
 	// bound terms from comparisons
 	type bnd struct {
 		name string
